@@ -507,8 +507,8 @@ def _run(ctx, tmp, procs):
 def directed_cases(ctx, orc, hx):
     """fixed inputs on which the real code was confirmed to deviate from the property; each has a stable key"""
     o = hx.ask("directed", timeout=900)
-    if o is None:
-        orc.fail("c44:harness-died", "MJX harness died on the directed cases", {})
+    if o is None or not o.startswith("{"):
+        orc.fail("c44:directed-cases-raise", "put_data/get_data/make_data raised on the directed cases: %s" % o, {"op": "directed"})
         return
     r = json.loads(o)
     ctx.extra["directed_cases"] = r
